@@ -226,7 +226,7 @@ func promiseSite(r *core.Run, o *core.O, h *ssa.Function, isAllow, isServe, isRe
 
 func c09(r *core.Run) {
 	p := r.P
-	r.Explanation = "Decides on every path: RollingWindow.{offset,lastTime,win} and the window's buckets are touched only under the window's write lock; Add advances the offset before adding into the bucket at the advanced offset; the offset advance ≡ (offset+span) mod size, lastTime stays bucket-aligned (now − (now−lastTime) mod interval), span is clamped to [0,size), Reduce visits (offset+span+1) mod size onwards for size−span buckets (size−1 when the current bucket is ignored). Shedder: Allow moves the in-flight counter by exactly +1 iff it returns a promise bound to this shedder and by 0 when it returns the error, which it does only when the drop decision is true; Pass and Fail move it by exactly −1; at both integration sites the handler runs only after a successful Allow and exactly one of Pass/Fail runs on every exit incl. panic; the drop decision is (overloaded ∨ stillHot) ∧ highThru as a truth table; highThru is the conjunction of both comparisons > maxFlight; the overload test is CpuUsage ≥ threshold and stamps the overload time; stillHot implies droppedRecently ∧ Since(overload) < 1 s; maxFlight ≡ int(max(1, maxPass·windows·minRt/1000)); windows ≡ 1 s / (window/buckets), both counters use that bucket duration and ignore the current bucket; Pass feeds ceil(latency in ms) to the latency window and 1 to the pass window; maxPass/minRt reduce over the right window; the smoothed in-flight update is convex and under its spin lock."
+	r.Explanation = "Decides on every path: RollingWindow.{offset,lastTime,win} and the window's buckets are touched only under the window's write lock; Add advances the offset before adding into the bucket at the advanced offset; the offset advance ≡ (offset+span) mod size, lastTime stays bucket-aligned (now − (now−lastTime) mod interval), span is clamped to [0,size), Reduce visits (offset+span+1) mod size onwards for size−span buckets (size−1 when the current bucket is ignored). Shedder: Allow moves the in-flight counter by exactly +1 iff it returns a promise bound to this shedder and by 0 when it returns the error, which it does only when the drop decision is true; Pass and Fail move it by exactly −1; at both integration sites the handler runs only after a successful Allow and exactly one of Pass/Fail runs on every exit incl. panic; the drop decision is (overloaded ∨ stillHot) ∧ highThru as a truth table; highThru is the conjunction of both comparisons > maxFlight; the overload test is CpuUsage ≥ threshold and stamps the overload time; stillHot implies droppedRecently ∧ Since(overload) < 1 s; maxFlight ≡ int(max(1, maxPass·windows·minRt/1000)) as a product of reals; windows ≡ the real quotient 1 s / (window/buckets) — float operands, float division, float field, never truncated —, both counters use that bucket duration and ignore the current bucket; Pass feeds ceil(latency in ms) to the latency window and 1 to the pass window; maxPass/minRt reduce over the right window; the smoothed in-flight update is convex and under its spin lock."
 	r.NotDecided = "which values a reduction sees at which instant (bucket expiry over arbitrary gaps is arithmetic over the clock: only the shape of the formulas is pinned, the clock itself is not modelled); CPU sampling; fairness of the spin lock."
 	c := newC09ctx(p)
 	need := func(o *core.O, fs ...*ssa.Function) bool {
@@ -1234,12 +1234,21 @@ func c09(r *core.Run) {
 				return "since"
 			case core.Short(core.CalleeName(cl)) == "math.Round":
 				return "round(" + loadAlg.Norm(cl.Call.Args[0]).String() + ")"
+			case core.Short(core.CalleeName(cl)) == "(time.Duration).Nanoseconds":
+				// d.Nanoseconds() ≡ int64(d): the same atom as d when d is one
+				if g := loadAlg.Norm(cl.Call.Args[0]); len(g) == 1 {
+					for k, coef := range g {
+						if at := g.Atoms(); len(at) == 1 && at[0] == k && coef.Cmp(big.NewRat(1, 1)) == 0 {
+							return k
+						}
+					}
+				}
 			}
 		}
 		return ""
 	}
 	loadAlg = &core.Alg{Name: loadNames}
-	r.Check("D4/K7/max-flight", "maxFlight ≡ int(max(1, maxPass · windows · minRt / 1000))", func(o *core.O) {
+	r.Check("D4/K7/max-flight", "maxFlight ≡ int(max(1, maxPass · windows · minRt / 1000)), the product taken over the reals: the only float→int conversion is the final one (an operand converted to an integer first — int64(windows) — truncates buckets-per-second and under-estimates the capacity)", func(o *core.O) {
 		if !need(o, c.maxFlight, c.maxPass, c.minRt) {
 			return
 		}
@@ -1317,7 +1326,7 @@ func c09(r *core.Run) {
 			o.Unres("no functional-option application found in %s", loadPkg)
 		}
 	})
-	r.Check("D4/K7/windows-per-second", "windows ≡ 1 s / (window / buckets); both counters are built with (buckets, window/buckets) and ignore the current bucket", func(o *core.O) {
+	r.Check("D4/K7/windows-per-second", "windows ≡ 1 s / (window / buckets) as a REAL quotient (float operands, float division, kept in a float field): an integer division or a float→int conversion of it truncates buckets-per-second — to 0 for a bucket longer than a second, downwards for a bucket that does not divide a second — and the capacity max-passes × buckets-per-second × min-latency is under-estimated, so requests below the estimated capacity are rejected; both counters are built with (buckets, window/buckets) and ignore the current bucket", func(o *core.O) {
 		if !need(o) {
 			return
 		}
@@ -1328,8 +1337,19 @@ func c09(r *core.Run) {
 			for _, st := range core.StoresToField(f, c.field("windows")) {
 				nw++
 				r.Fn(core.FuncName(f))
-				if got, want := a.Norm(st.Val), core.ParsePoly("idiv(1000000000, idiv(window, buckets))"); !got.Equal(want) {
-					o.Fail(p.InstrPos(st), "windows = %s, expected %s (buckets per second)", got, want)
+				got := a.Norm(st.Val)
+				if pt, ok := st.Addr.Type().Underlying().(*types.Pointer); ok {
+					if b, isB := pt.Elem().Underlying().(*types.Basic); !isB || b.Info()&types.IsFloat == 0 {
+						o.Fail(p.InstrPos(st), "buckets-per-second is kept in a field of type %s: it is truncated to an integer (0 for a bucket longer than 1 s, 1 instead of 1.67 for a 600 ms bucket), the estimated capacity collapses and requests below it are rejected (windows = %s)", pt.Elem(), got)
+						continue
+					}
+				}
+				if !c09RealPerSecond(a, st.Val, bucket) {
+					why := "expected the real quotient div(1000000000, idiv(window, buckets)) (buckets per second)"
+					if s := got.String(); strings.Contains(s, "idiv(1000000000") || strings.HasPrefix(s, "int(") || strings.HasPrefix(s, "floor(") {
+						why = "buckets-per-second is truncated to an integer (0 for a bucket longer than 1 s, 1 instead of 1.67 for a 600 ms bucket): the estimated capacity collapses and requests below it are rejected"
+					}
+					o.Fail(p.InstrPos(st), "windows = %s: %s", got, why)
 				}
 			}
 			for _, fld := range []string{"passCounter", "rtCounter"} {
@@ -1471,6 +1491,48 @@ func c09(r *core.Run) {
 			o.Fail(loadPkg, "expected two Add sites, two reductions and their closures, found %d sites", n)
 		}
 	})
+}
+
+// c09RealPerSecond decides whether v is the real number 1 s / bucket: a floating-point division
+// num/den whose normal forms are a constant c1 and c2·bucket with c1/c2 = 1e9 ns (so
+// float64(time.Second)/float64(d), 1/d.Seconds() and 1e3/(float64(d)/1e6) are the same value),
+// looked at through int→float and float→float conversions and temporaries only: a float→int
+// conversion or an integer division anywhere on the way is a different (truncated) value.
+func c09RealPerSecond(a *core.Alg, v ssa.Value, bucket core.Poly) bool {
+	if a.Norm(v).Equal(polyFn("div", core.PInt(1_000_000_000), bucket)) {
+		return true
+	}
+	for i := 0; i < 8; i++ {
+		v = core.Forward(v)
+		switch x := v.(type) {
+		case *ssa.Convert:
+			if b, ok := x.Type().Underlying().(*types.Basic); !ok || b.Info()&types.IsFloat == 0 {
+				return false
+			}
+			v = x.X
+			continue
+		case *ssa.ChangeType:
+			v = x.X
+			continue
+		case *ssa.BinOp:
+			b, ok := x.Type().Underlying().(*types.Basic)
+			if x.Op != token.QUO || !ok || b.Info()&types.IsFloat == 0 {
+				return false
+			}
+			num, den := a.Norm(x.X), a.Norm(x.Y)
+			c1, isC := num.IsConst()
+			if !isC || c1.Sign() == 0 || len(den) != 1 {
+				return false
+			}
+			c2, has := den[bucket.String()]
+			if !has || c2.Sign() == 0 {
+				return false
+			}
+			return core.PConst(new(big.Rat).Quo(c1, c2)).Equal(core.PInt(1_000_000_000))
+		}
+		return false
+	}
+	return false
 }
 
 func sortedFuncs(m map[*ssa.Function]bool) []*ssa.Function {
